@@ -478,7 +478,7 @@ def _points(pc, n, i):
 def linmap_case(draw):
     n = draw(st.integers(1, 5))
     i = draw(st.integers(0, n))
-    kind = draw(st.integers(0, 5))
+    kind = draw(st.sampled_from([0, 1, 2, 3, 4, 5, 5, 5]))
     if kind == 0:
         L = [[1.0 if r == c else 0.0 for c in range(n)] for r in range(n)]
     elif kind == 1:     # a permutation-like / shear matrix: entries placed by position
@@ -488,6 +488,11 @@ def linmap_case(draw):
             L[r][r] = float(n * n + r + 2)
     else:
         L = draw(gen.wellcond_matrix(n))
+    if kind == 5:
+        # a strong contraction or dilation (determinant 1e-15 .. 1e10): as good a linear map
+        # of the chart as any
+        c = draw(st.sampled_from([1e-3, 1e-3, 0.02, 1e2]))
+        L = [[c * x for x in row] for row in L]
     return dict(n=n, i=i, L=L, cv=draw(st.sampled_from([True, False, None])),
                 pts=draw(points_in_chart(n)))
 
